@@ -23,14 +23,27 @@ namespace Rlib.Iter
 
 /-! ## masks.rs -/
 
+/-- `2 ^ w`, with the widths of the Rust integer types as literals (so that the compiled driver does not
+    call the big-number power routine at every iterator step). -/
+def pow2 : Nat → Nat
+  | 8 => 256
+  | 16 => 65536
+  | 32 => 4294967296
+  | 64 => 18446744073709551616
+  | 128 => 340282366920938463463374607431768211456
+  | w => 2 ^ w
+
+theorem pow2_eq (w : Nat) : pow2 w = 2 ^ w := by
+  unfold pow2; split <;> rfl
+
 /-- `T::ones()`: all `w` bits set. -/
-def ones (w : Nat) : Nat := 2 ^ w - 1
+def ones (w : Nat) : Nat := pow2 w - 1
 
 /-- `self.wrapping_sub(1)` on a `w`-bit pattern. -/
-def wrappingSub1 (w s : Nat) : Nat := if s = 0 then ones w else (s - 1) % 2 ^ w
+def wrappingSub1 (w s : Nat) : Nat := if s = 0 then ones w else (s - 1) % pow2 w
 
 /-- `self.wrapping_add(1)` on a `w`-bit pattern. -/
-def wrappingAdd1 (w s : Nat) : Nat := (s + 1) % 2 ^ w
+def wrappingAdd1 (w s : Nat) : Nat := (s + 1) % pow2 w
 
 /-- `next_submask(&mut self, x)`: `None` when `*self == 0`, else yield `cur` and step to
     `self.wrapping_sub(1) & x`.  Result: (yielded value, new state). -/
@@ -84,6 +97,7 @@ theorem popcount_eq_iff : ∀ w s, popcount w s = w ↔ s % 2 ^ w = 2 ^ w - 1
 /-- `count_zeros() == 0` says: the pattern is all-ones. -/
 theorem countZeros_eq_zero_iff (w s : Nat) : countZeros w s = 0 ↔ s % 2 ^ w = ones w := by
   unfold countZeros ones
+  rw [pow2_eq]
   rw [← popcount_eq_iff]
   have := popcount_le w s
   omega
@@ -116,6 +130,7 @@ theorem nextSupermask_gt {w s x cur s' : Nat} (h : nextSupermask w s x = some (c
       rw [Nat.or_mod_two_pow]; exact Nat.left_le_or
     have h2 : wrappingAdd1 w s % 2 ^ w = s % 2 ^ w + 1 := by
       unfold wrappingAdd1 ones at *
+      simp only [pow2_eq] at *
       rw [Nat.mod_mod, Nat.add_mod]
       have h1' : 1 % 2 ^ w = 1 := Nat.mod_eq_of_lt (by omega)
       rw [h1']
@@ -352,14 +367,14 @@ def hashInit : UInt64 := 0xcbf29ce484222325
 
 /-- Feed a value of up to 128 bits as two 64-bit words. -/
 def hashNat (h : UInt64) (v : Nat) : UInt64 :=
-  hashStep (hashStep h (v % 2 ^ 64).toUInt64) ((v / 2 ^ 64) % 2 ^ 64).toUInt64
+  hashStep (hashStep h v.toUInt64) (v >>> 64).toUInt64   -- `toUInt64` reduces mod 2^64
 
 /-- A mask in the notation of its type (`-1` for the all-ones pattern of a signed type). -/
 def showMask (t : IntTy) (v : Nat) : String := toString (t.wrap (v : Int))
 
 /-- A collected mask iterator: the whole list when short, else length, ends and a 64-bit digest. -/
 def showMasks (t : IntTy) (l : List Nat) : String :=
-  if l.length ≤ 64 then showListWith (showMask t) l
+  if l.length ≤ 32 then showListWith (showMask t) l
   else
     let h := l.foldl hashNat hashInit
     s!"n={l.length} first={showMask t (l.headD 0)} last={showMask t (l.getLastD 0)} h={toHex h.toNat 16}"
